@@ -56,3 +56,22 @@ Proof. vm_compute. repeat split. discriminate. Qed.
 
 Check history_independent : forall dbg caps (h : list use) (cx cx0 : ctx),
   run_history dbg caps h cx = map (fun u => fst (use_ctx dbg caps u cx0)) h.
+
+(* ------------------------------------------------------------------------------------------
+   Abbreviation caches: whatever the strategy (Duplicates keeps the offsets seen at least twice, All keeps
+   all) and whatever units were scanned, a lookup through the cache returns exactly what parsing the
+   offset returns — `parse` is DebugAbbrev::abbreviations on the immutable section, Ok or Err alike. *)
+Require Import GV.Model.AbbrevCache GV.Proofs.AbbrevCacheProofs.
+
+Theorem cache_transparent : forall (A : Type) (parse : N -> A) (s : strategy) (unit_offsets : list N) (o : N),
+  get parse (populate parse s unit_offsets) o = parse o.
+Proof. intros A parse. exact (cache_transparent_lemma parse). Qed.
+
+Theorem cache_repopulate : forall (A : Type) (parse : N -> A) s1 offs1 s2 offs2 (o : N),
+  get parse (populate parse s2 offs2) o = get parse (populate parse s1 offs1) o.
+Proof. intros A parse. exact (cache_repopulate_lemma parse). Qed.
+
+Example cache_duplicates_keeps_repeated : cached_offsets Duplicates [8; 0; 8; 3; 0; 8]%N = [0; 8]%N.
+Proof. vm_compute. reflexivity. Qed.
+Example cache_all_keeps_each_once : cached_offsets All [8; 0; 8; 3; 0; 8]%N = [0; 3; 8]%N.
+Proof. vm_compute. reflexivity. Qed.
